@@ -42,7 +42,15 @@ RULE = ("streams: wrapper = random small libraries (str / int / list / list-of-N
         "error containment, block class kept); userclass-default (ORACLE ONLY) = such libraries and position patterns over the "
         "round-trip alphabet through the middlewares with their DEFAULT converters (enc / dec / enc,dec): scope and types, equality "
         "with the result on the same library built from the plain classes, and decode(encode(.)) = identity on every block whose texts "
-        "pristine pylatexenc round-trips. distinct = "
+        "pristine pylatexenc round-trips; sparse markup (TEST, appended last) = for EVERY "
+        "character c of the round-trip alphabet (all 32 ASCII punctuation characters incl. the TeX specials, NO-BREAK SPACE, every accented "
+        "Latin letter U+00C0-U+017F: set main, no exclusion but K5 / K12) and of a wide set (Latin-1 signs, spacing modifiers, general "
+        "punctuation and spaces U+2000-U+206F, currency, letterlike, arrows, mathematical operators, technical, geometric, music signs and "
+        "every other letter of the sweep: set wide, kept only where pristine pylatexenc round-trips the text) the texts in which c is the "
+        "ONLY character whose encoding is markup: c alone, x c y glued, c between blanks, c as a word between words, c doubled, tripled, "
+        "repeated with a blank, and two DIFFERENT such characters and nothing else (glued both ways, separated by a blank), through encode "
+        "(default options; x c y also under the four other option combinations) then decode, in a field, as a NameParts word and in an "
+        "@string: quick = every layout for main and one layout (rotating with the character and the seed) for wide, thorough = every layout and option for both. distinct = "
         "distinct (stream, input); non-trivial = some visited text is changed by the converter or fails")
 TRUSTED = ["pylatexenc (encoder tables, LaTeX parser) is NOT modelled: the round-trip clause of C18 is validated by testing only "
            "(stream roundtrip) - the proof-level claim is PARTIAL: scope, types, error containment and the conditional round trip "
@@ -441,6 +449,59 @@ def sweep_texts(rng, quick):
     return out
 
 
+# ---- sparse markup: ONE character whose encoding is markup (or two different ones) and nothing else that needs encoding
+SPARSE_MAIN = list(dict.fromkeys(PUNCT + SPECIALS + ["\xa0", "^", '"', "`"] + ACCENTED))
+SPARSE_WIDE_RANGES = [(0xA1, 0xC0), (0xD7, 0xD8), (0xF7, 0xF8), (0x2B0, 0x300), (0x2000, 0x2070), (0x20A0, 0x20C0), (0x2100, 0x2150),
+                      (0x2190, 0x2330), (0x25A0, 0x2600), (0x2660, 0x2670), (0x27E8, 0x27EA), (0x27F5, 0x27FD)]
+SPARSE_WIDE = [chr(c) for a, b in SPARSE_WIDE_RANGES for c in range(a, b)] + [c for c in SWEEP if c not in ACCENTED_SET]
+SPARSE_LAYOUTS = [("alone", "C"), ("glued-in-word", "xCy"), ("between-blanks", " C "), ("word-between-words", "a C b"), ("doubled", "CC"),
+                  ("repeated-with-blank", "C C"), ("tripled", "CCC")]
+SPARSE_PAIR_LAYOUTS = [("pair-glued", "CD"), ("pair-glued-reversed", "DC"), ("pair-with-blank", "C D")]
+# partners of a pair that certainly need encoding (the run-time tags say for every case what pristine pylatexenc makes of its characters)
+SPARSE_PARTNERS = SPECIALS + ["\xa0", "<", ">", "|"]
+
+
+def sparse_case(layout, fmt, chars, opts, which):
+    text = "".join(chars[0] if x == "C" else chars[1] if x == "D" else x for x in fmt)
+    inp = {"kind": "roundtrip", "text": text, "opts": opts, "words": " " in fmt,
+           "sparse": {"layout": layout, "chars": list(chars), "set": which}}
+    if which == "wide":
+        inp["pristine"] = True
+    return {"stream": "sparse", "input": inp}
+
+
+def gen_sparse_cases(rng, quick):
+    cases = []
+    default = ENC_OPTS[0]
+    for c in SPARSE_MAIN:
+        for name, fmt in SPARSE_LAYOUTS:
+            for o in ENC_OPTS if (not quick or name == "glued-in-word") else [default]:
+                cases.append(sparse_case(name, fmt, [c], o, "main"))
+        partners = [rng.choice(SPARSE_PARTNERS), rng.choice(ACCENTED), rng.choice(SPARSE_MAIN)]
+        if not quick:
+            partners += [rng.choice(SPARSE_PARTNERS), rng.choice(SPARSE_MAIN), rng.choice(SPARSE_WIDE)]
+        for j, d in enumerate(partners):
+            while d == c:
+                d = rng.choice(SPARSE_MAIN)
+            name, fmt = SPARSE_PAIR_LAYOUTS[(j + rng.randrange(3)) % 3 if j > 2 else j]
+            cases.append(sparse_case(name, fmt, [c, d], default if quick else rng.choice(ENC_OPTS), "main"))
+    off = rng.randrange(len(SPARSE_LAYOUTS))
+    for i, c in enumerate(SPARSE_WIDE):
+        if quick:
+            lay = [SPARSE_LAYOUTS[(i + off) % len(SPARSE_LAYOUTS)]]
+        else:
+            lay = SPARSE_LAYOUTS
+        for j, (name, fmt) in enumerate(lay):
+            cases.append(sparse_case(name, fmt, [c], default if quick or j % 2 == 0 else rng.choice(ENC_OPTS), "wide"))
+        if not quick or i % 4 == off % 4:
+            d = rng.choice(SPARSE_PARTNERS + SPARSE_WIDE)
+            while d == c:
+                d = rng.choice(SPARSE_WIDE)
+            name, fmt = SPARSE_PAIR_LAYOUTS[i % 3]
+            cases.append(sparse_case(name, fmt, [c, d], default, "wide"))
+    return cases
+
+
 def generate(rng, tier):
     quick = tier == "quick"
     cases = []
@@ -494,6 +555,8 @@ def generate(rng, tier):
                                                            "pristine": True, "drop": n_prot % 3 == 0, "words": n_prot % 4 == 0}})
     # the caller's own classes and non-text values at every field position (appended: the streams above keep their inputs)
     cases.extend(gen_userclass_cases(rng, quick))
+    # sparse markup (appended: the streams above keep their inputs)
+    cases.extend(gen_sparse_cases(rng, quick))
     return cases
 
 
@@ -1146,6 +1209,22 @@ def pristine_roundtrips(text):
         return False
 
 
+def sparse_tags(sp):
+    """distribution of the sparse-markup stream: layout, set, and what pristine pylatexenc makes of the character(s): `markup` =
+    the encoding differs from the character (the decoder has work to do), `plain` = it is passed through as it is"""
+    pristine_roundtrips("")
+    e = _PRISTINE[0]
+
+    def needs(c):
+        try:
+            return e.unicode_to_latex(c) != c
+        except Exception:  # noqa: BLE001
+            return True
+    n = sum(1 for c in sp["chars"] if needs(c))
+    return ["sparse:layout:" + sp["layout"], "sparse:set:" + sp["set"],
+            "sparse:chars-needing-markup:%d-of-%d" % (n, len(sp["chars"]))]
+
+
 def k12_class(text):
     """K12: a TeX ligature sequence, one of the characters " ^, or an accented Latin letter that pristine pylatexenc does not
     round-trip as a single character"""
@@ -1186,9 +1265,10 @@ def impl_roundtrip(case):
     # outside the alphabet the property names (letters beyond U+00C0-U+017F that the third-party tables do not invert; the
     # protected-region stream's own filter): excluded.  Inside it (ligature sequences, " ^, accented Latin letters) the text
     # IS run; a failure there is known finding K12
+    sp_tags = sparse_tags(inp["sparse"]) if inp.get("sparse") else []
     if any(c in bad and c not in ACCENTED_SET for c in text) or (inp.get("pristine") and not pristine_roundtrips(text)):
         rec["oracle"] = {"ok": True, "detail": ""}
-        rec["tags"] = ["roundtrip:excluded-third-party-noninjective"]
+        rec["tags"] = ["roundtrip:excluded-third-party-noninjective"] + (["sparse:excluded-third-party-noninjective"] if sp_tags else [])
         rec["nontrivial"] = False
         rec["summary"] = "excluded"
         return rec
@@ -1230,6 +1310,8 @@ def impl_roundtrip(case):
         rec["tags"] = ["roundtrip-fail:" + (known or "UNKNOWN")]
     else:
         rec["tags"] = ["roundtrip:ok"] + (["roundtrip:k12-stream-ok"] if inp.get("k12") else []) + (["roundtrip:letter-sweep"] if inp.get("drop") and not inp.get("pristine") else []) + \
-            (["roundtrip:escaped-special-inside-math"] if inp.get("pristine") else [])
+            (["roundtrip:escaped-special-inside-math"] if inp.get("pristine") and not sp_tags else [])
+    if sp_tags:
+        rec["tags"] = rec["tags"] + sp_tags + ["sparse:ok" if ok else "sparse-fail:" + (rec["oracle"].get("known") or "UNKNOWN")]
     rec["summary"] = repr(mid[1])[:200]
     return rec
